@@ -48,13 +48,8 @@ def main() -> dict:
     summary = {}
     import importlib
 
-    for name in ("gen_formats", "gen_pods", "gen_styles", "gen_exs"):
-        try:
-            mod = importlib.import_module(name)
-        except ModuleNotFoundError as e:
-            if e.name != name:
-                raise
-            continue
+    for name in sorted(p.stem for p in HERE.glob("gen_*.py") if p.stem != "gen_tables"):
+        mod = importlib.import_module(name)
         for fname, content, info in mod.generate():
             changed = write_if_changed(GEN / fname, content)
             summary[fname] = dict(info, rewritten=changed)
